@@ -30,6 +30,8 @@ def run(ck: Checker):
     ck.rule('C12-5', 'wait/as_completed map futures back to workers by the same key they indexed with (SIBLING)', minimum=4)
     ck.rule('C12-6', "a raised exception carries the thread's traceback text: Thread.run attaches the formatted traceback as __cause__ on every path that stores the exception (MUSTPASS)")
     check_thread_run(ck, 'C12-1')
+    ck.rule('C12-12', 'the future exists when start() returns: it is created by the constructor or by start(), never by the new thread, and run() does not replace it (ORIGIN)', minimum=2)
+    check_future_exists_at_start(ck, 'C12-12')
     check_thread_traceback(ck, 'C12-6')
     ck.rule('C12-7', 'pipe ownership: the write end of the result pipe lives only in a mapping created by SpawnProcess.__init__ (never in the caller\'s kwargs dict), so that a killed child is seen as EOF (ORIGIN)')
     check_pipe_ownership(ck, 'C12-7')
@@ -86,6 +88,34 @@ def check_thread_run(ck: Checker, rid: str):
             bad.append(f'a path ends with the future resolved {lo}..{hi} times')
     ck.paths_examined += len(res)
     ck.ob(rid, f, (f.node.lineno, 'Thread.run'), not bad, '; '.join(bad) if bad else 'every path (target returns, SystemExit in each form, any other BaseException, no target) resolves `_future_` exactly once and run() never raises')
+
+
+def check_future_exists_at_start(ck: Checker, rid: str):
+    """`wait()` / `as_completed()` / `result()` may be called as soon as `start()` has returned.  The future they read is
+    therefore created by the thread that calls the constructor / `start()` -- never by the new thread (the first
+    statement of `run()` executes at an unknown time after `start()` returned; until then the attribute would be None or
+    missing and `wait([t])` fails with AttributeError)."""
+    for rel, clsname in ((THREADING, 'Thread'), (CONTEXT, 'SpawnProcess')):
+        cls = ck.repo.cls(rel, clsname)
+        makers = []
+        for m in cls.methods():
+            for n in walk_shallow_func(m.node):
+                tgt = n.targets[0] if isinstance(n, ast.Assign) and len(n.targets) == 1 else (n.target if isinstance(n, ast.AnnAssign) else None)
+                if tgt is not None and dotted(tgt) == 'self._future_' and isinstance(n.value, ast.Call) and (dotted(n.value.func) or '').endswith('Future'):
+                    makers.append((m, n))
+        probs = []
+        if not makers:
+            probs.append('no method creates `self._future_`')
+        early = [(m, n) for m, n in makers if m.name in ('__init__', 'start')]
+        late = [(m, n) for m, n in makers if m.name not in ('__init__', 'start')]
+        if makers and not early:
+            m, n = late[0]
+            probs.append(f'`self._future_` is created only in {clsname}.{m.name} (L{n.lineno}), which the new thread / a helper executes some time after start() returned: wait() / as_completed() / result() called right after start() find no future (AttributeError)')
+        for m, n in late:
+            if early and m.name == 'run':
+                probs.append(f'{clsname}.run (L{n.lineno}) replaces the future created by {early[0][0].name}: a wait() that already holds the first future never sees it resolved')
+        anchor = (early or makers or [(cls.method('run'), cls.method('run').node)])[0]
+        ck.ob(rid, anchor[0], anchor[1], not probs, '; '.join(probs) if probs else f'`{clsname}._future_` is created in {anchor[0].name}: it exists when start() returns, and run() resolves that very object')
 
 
 def check_thread_traceback(ck: Checker, rid: str):
